@@ -1,8 +1,8 @@
 package mon
 
 import (
-	"errors"
 	"bytes"
+	"errors"
 	"fmt"
 
 	"github.com/brocaar/lorawan"
@@ -126,6 +126,12 @@ func runC03(c *core.Ctx) {
 			up := r.Bool()
 			pt := r.Bytes(ln)
 			in := make([]byte, ln) // exact capacity
+			if ln > 0 && fcnt%3 == 1 {
+				// the payload as a sub-slice of a larger buffer, starting at an odd address (word-at-a-time code)
+				off := 1 + int(fcnt>>8)%15
+				big := make([]byte, off+ln)
+				in = big[off : off+ln : off+ln]
+			}
 			copy(in, pt)
 			var out []byte
 			var err error
@@ -427,7 +433,6 @@ func runC03(c *core.Ctx) {
 		}
 	}
 }
-
 
 // brokenPayload is a caller-defined Payload whose MarshalBinary fails.
 type brokenPayload struct{ panics bool }
